@@ -29,6 +29,11 @@ def main():
         if replay:
             return mod.replay(replay)
         return mod.run(tier)
+    except common.CodeCrash as e:
+        # the library under test panicked (or dead-locked) inside a driver: that is a verdict, not a machinery problem
+        o = common.Outcome(pid, tier, "other")
+        o.report("crash/%s/%s" % (e.engine, e.msg), "driver %s: the code under test crashed: %s\n%s" % (e.engine, e.msg, e.payload.get("stderr", "")[-800:]), e.payload)
+        return o.finish()
     except common.MachineryError as e:
         print("[machinery] %s" % e)
         return 2
